@@ -24,6 +24,16 @@ CLAIMED = {
  "C05": ("V: every file written by fastavro is parsed by AvroFile!ParseFile (magic, metadata map, sync, blocks; payloads inflated by the standard library "
          "only) and must yield the records; block_reader offsets/sizes/counts must equal the spec parser's and tile the file.",
          "TLA+ spec (AvroFile!ParseFile, Tiles) + TLC trace validation of logged files and block listings", "3/C05"),
+ "C06": ("V: real container files (all importable codecs, 0-6 blocks, blocks with >= 64 records) cut at every byte offset and with every sync marker "
+         "altered at every byte position (bit flip / zero / random), read with reader and block_reader; the whole outcome table of a file is judged by "
+         "TLC against the block structure found by AvroFile!ParseFile (yielded = prefix of written; normal end only at a block boundary; corrupted "
+         "marker raises at that block); plus every proper prefix of spec-generated schemaless layouts.",
+         "TLA+ spec (AvroFile!ParseFile, Boundaries; AvroLayout) + fault enumeration judged by TLC", "3/C06"),
+ "C07": ("V: every history up to a bound over {write small/large/zero-byte/failing-early/failing-late, flush, write_block (donor inspected or not, Block "
+         "objects reused), reopen for append with other schema/codec/metadata/sync} plus seeded random histories is run on fastavro.write.Writer; the "
+         "stream bytes after every call are validated by TLC against the AvroWriter state machine (blocks pinned by AvroFile!ParseFile of the logged "
+         "stream, pending block and dump decisions inferred), ReadBack/Durable evaluated in every state, header bytes immutable.",
+         "TLA+ state machine (AvroWriter) + TLC trace validation with inferred hidden state", "3/C07"),
 }
 checks = []
 for p in props:
